@@ -480,6 +480,12 @@ func c09Line(work, line string, yml bool, tag string, lineNo int, r *rng, every,
 			if wurzN < 0 {
 				wurzN = 0
 			}
+			poolN := wurzN
+			if poolN < 1 {
+				poolN = 1
+			}
+			// the pools below the rooted layers are not touched by PhytoOut
+			poolRestSame := sameFs(pre.NFOS[poolN:], g.NFOS[poolN:]) && sameFs(pre.NAOS[poolN:], g.NAOS[poolN:])
 			rootOK := int(4.5/qeff/pre.DZ.Num) == g.WURZ
 			esHi := make([]float64, wurzN)
 			esLo := make([]float64, wurzN)
@@ -741,6 +747,9 @@ func c09Line(work, line string, yml bool, tag string, lineNo int, r *rng, every,
 				// supply terms (SupplyModel): raw inputs of MASS / DIFF for the first min(cnt, 10) layers, the class and inputs of maxup
 				"s_n": supN, "s_tp": hxs(pre.TP[:supN]), "s_c1": hxs(pre.C1[:supN]), "s_wg": hxs(pre.WG[0][:supN]), "s_ad": hxs(pre.AD[:supN]), "s_e": hxs(supE),
 				"s_wud": hxs(g.WUDICH[:supN]), "s_class": mxClass, "s_phyllo": hx(g.PHYLLO), "s_tendsum": hx(tendsum),
+				// pool inputs of the day (RootDistModel.pools_after): organic pools of the rooted layers before / after the call
+				"p_n": poolN, "p_nfos0": hxs(pre.NFOS[:poolN]), "p_naos0": hxs(pre.NAOS[:poolN]), "p_o_nfos": hxs(g.NFOS[:poolN]), "p_o_naos": hxs(g.NAOS[:poolN]),
+				"p_rest_same": poolRestSame,
 				// reduk
 				"gehob": hx(pre.GEHOB), "gehmin": hx(g.GEHMIN), "ngefkt1": pre.NGEFKT == 1, "earg": hx(eArg), "e": hx(eVal), "reduk0": hx(pre.REDUK), "o_reduk": hx(g.REDUK),
 				// organs
